@@ -66,6 +66,8 @@ def corpus():
     for pol in (1, 2, 3):
         out.append({"k": "hand", "groups": [[hold(0, 4, 0)], [[2, 1, 0, "M", 0, None]], [[3, 1, 1, "1", 0, None]]], "pol": pol})
         out.append({"k": "hand", "groups": [[hold(0, 4, 0)], [hold(1, 3, 1)], [[2, 1, 0, "M", 0, None]]], "pol": pol})
+        for ty in "324":           # the note inside the hold is itself a stray tail, or a head without a tail
+            out.append({"k": "hand", "groups": [[hold(0, 4, 0)], [[2, 1, 0, ty, 0, None]], [[3, 1, 1, "1", 0, None]]], "pol": pol})
     out.append({"k": "rt", "ns": [[0, 1, 0, "2", 0, 0], [1, 1, 0, "3", 0, None]], "types": c09.ALLTYPES, "mode": 1, "join": True, "ph": 2, "pt": 2, "pol": 1})
     # three notes on distinct beats inside one 1/48 tick, types A B A, under each same-beat mode: distinct beats stay distinct groups
     for mode in (1, 2, 3):
@@ -96,7 +98,7 @@ def gen(rng, i, tier):
                 used.add((b1, c))
                 items.append(hold(b0, b1, c, rng.choice("24"), rng.choice([None, None, 0, 3])))
             else:
-                items.append([b0, 1, c, rng.choice("1MLF"), 0, None])
+                items.append([b0, 1, c, rng.choice("1MLF1MLF324"), 0, None])      # any note type can be the plain note inside a hold: a stray tail or head too
         items.sort(key=lambda o: (o[0], o[2]))
         # distinct tail positions only
         tails = [(o[6], o[2]) for o in items if len(o) == 8]
